@@ -97,8 +97,9 @@ def gen_names(rng, nops=40, dostype=None, latin=None):
             ops += [f"open {hfree} 0 0 {hx(nm)} 2"]
             if key(nm) not in d or d[key(nm)][0] == 'f':
                 if sz: ops.append(f"write {hfree} {sz} {rng.randrange(1000)}")
-                ops.append(f"close {hfree}")
                 d.setdefault(key(nm), ('f', sz, nm))
+            # always closed: the shadow directory is best-effort, an open it expects to fail may succeed
+            ops.append(f"close {hfree}")
         elif r < 0.55 and existing:
             e = rng.choice(existing)
             nm = e[2] if rng.random() < 0.7 else pool.variant(e[2])
@@ -279,6 +280,114 @@ def gen_dircspill(rng, nops=None):
     ops += [f"open 2 0 0 {hx(b'keep')} 1", "read 2 4000", "close 2", "usedirc 0", "list 0 0 1", "free 0 0"] + epilogue()
     return ops
 
+def gen_eofseek(rng, nops=None):
+    """seeks BEYOND the end of a file that stay inside its last data block (the library clamps the position), followed by
+    writes and reads through the same handle without another seek; sizes that are not multiples of the block size"""
+    dostype = rng.randrange(6)
+    dbs = 512 if dostype & 1 else 488
+    ops = prologue(dostype, clock=(2008, 9, 10, 11, 12, 13))
+    for i in range(rng.randint(2, 4)):
+        nm = b"e%d" % i
+        full = rng.choice([0, 0, 1, 2, 71, 72])
+        part = rng.choice([1, 7, 100, dbs // 2, dbs - 2])
+        size = full * dbs + part
+        ops += [f"open 1 0 0 {hx(nm)} 3", f"write 1 {size} {i + 1}"]
+        for _ in range(rng.randint(1, 3)):
+            room = dbs - (size % dbs)
+            beyond = size + rng.choice([1, 2, max(1, room // 2), max(1, room - 1)])
+            if rng.random() < 0.5: ops.append(f"seek 1 {max(0, size - rng.choice([1, 5, part]))}")
+            ops.append(f"seek 1 {beyond}")
+            n = rng.choice([1, 4, 50, max(1, room - 1)])
+            if rng.random() < 0.7:
+                ops.append(f"write 1 {n} {rng.randrange(1000)}"); size += n
+            else:
+                ops.append("read 1 100")
+            ops.append("stat 1")
+        ops += ["seek 1 0", "read 1 200000", "close 1", f"open 2 0 0 {hx(nm)} 1", "read 2 200000", "close 2"]
+    ops += epilogue()
+    ops += ["opendev 0 1", "mount 0 0 1"]
+    for i in range(4): ops += [f"open 2 0 0 {hx(b'e%d' % i)} 1", "read 2 200000", "close 2"]
+    ops += epilogue()
+    return ops
+
+def gen_ofsappend(rng, nops=None):
+    """files with extension blocks on which a read+write handle is positioned by a seek into the LAST extension block's
+    range (or to the end and back to 0), then READS sequentially to the end (on OFS that follows the data blocks' own chain
+    and does not move the extension cursor) and then appends enough for new data blocks; all flavours"""
+    dostype = rng.choice([0, 0, 2, 4, 1, 3])
+    dbs = 512 if dostype & 1 else 488
+    ops = prologue(dostype, clock=(2010, 11, 12, 13, 14, 15))
+    nb = rng.choice([74, 80, 100, 143, 150])
+    size = nb * dbs - rng.choice([0, 10, 200])
+    ops += [f"open 1 0 0 {hx(b'by')} 2", "write 1 1500 3", "close 1",
+            f"open 1 0 0 {hx(b'f')} 2", f"write 1 {size} 1", "close 1", f"open 2 0 0 {hx(b'f')} 3"]
+    r = rng.random()
+    if r < 0.4: ops += [f"seek 2 {(nb - rng.choice([1, 3, 5])) * dbs + 10}", "read 2 200000"]
+    elif r < 0.7: ops += [f"seek 2 {size}", "seek 2 0", "read 2 200000"]
+    else: ops += [f"seek 2 {72 * dbs + 5}", f"read 2 {3 * dbs}", "seek 2 0", f"read 2 {size}"]
+    ops += [f"write 2 {rng.choice([1000, 3 * dbs, 80 * dbs])} 9", "stat 2", "close 2", "free 0 0",
+            f"open 3 0 0 {hx(b'f')} 1", "read 3 300000", f"seek 3 {(nb - 2) * dbs}", "read 3 5000", "close 3",
+            f"open 3 0 0 {hx(b'by')} 1", "read 3 5000", "close 3"]
+    if rng.random() < 0.5: ops += [f"remove 0 0 {hx(b'f')}", "free 0 0"]
+    ops += epilogue()
+    return ops
+
+def gen_dircgrow(rng, nops=None):
+    """a directory-cache record GROWS (longer comment, longer name) while the last cache block of its directory is nearly
+    full, so that the cache spills into a newly allocated block; then the volume is unmounted and mounted again at once and
+    the next allocations (a file in another directory, an entry in the same directory) follow"""
+    dostype = rng.choice([4, 5, 6, 7])
+    ops = prologue(dostype, clock=(2013, 1, 2, 3, 4, 5))
+    if rng.random() < 0.5: ops.append("usedirc 1")
+    ops.append(f"mkdir 0 0 {hx(b'Q')}")
+    nlen = rng.choice([30, 30, 22, 7])
+    per = (25 + nlen + 1) // 2 * 2
+    n = max(2, 488 // per - rng.choice([0, 0, 1]))
+    names = [(b"n%02d" % i + b"z" * 30)[:nlen] for i in range(n)]
+    for i, nm in enumerate(names): ops += [f"open 1 0 0 {hx(nm)} 2", f"write 1 {rng.choice([0, 30])} {i}", "close 1"]
+    target = rng.choice(names)
+    if rng.random() < 0.6: ops.append(f"comment 0 0 {hx(target)} {hx(b'c' * rng.choice([40, 79]))}")
+    else:
+        new = (target[:3] + b"y" * 30)[:30]
+        if nlen < 30: ops.append(f"rename 0 0 {hx(target)} {hx(new)}"); names[names.index(target)] = new
+        else: ops.append(f"comment 0 0 {hx(target)} {hx(b'd' * 79)}")
+    if rng.random() < 0.7: ops += ["unmount 0 0", "mount 0 0 0"] + (["usedirc 1"] if rng.random() < 0.5 else [])
+    ops += [f"chdir 0 0 {hx(b'Q')}", f"open 1 0 0 {hx(b'victim')} 2", "write 1 700 5", "close 1", "toroot 0 0",
+            f"open 1 0 0 {hx(b'other')} 2", "write 1 10 6", "close 1", f"mkdir 0 0 {hx(b'other2')}", "list 0 0 1", "free 0 0",
+            f"chdir 0 0 {hx(b'Q')}", f"open 2 0 0 {hx(b'victim')} 1", "read 2 5000", "close 2", "toroot 0 0"]
+    for nm in names[:2]: ops += [f"open 2 0 0 {hx(nm)} 1", "read 2 5000", "close 2"]
+    ops += ["usedirc 0", "list 0 0 1"] + epilogue()
+    return ops
+
+def gen_dirc488(rng, nops=None):
+    """directory-cache blocks filled EXACTLY to their 488th byte (and to 486/487 bytes): names chosen so that the record
+    lengths add up; listed through the cache and through the hash table, before and after a remount"""
+    dostype = rng.choice([4, 5, 6, 7])
+    ops = prologue(dostype, clock=(2014, 6, 7, 8, 9, 10))
+    # record length as the library computes it: 25 + name + comment, rounded up to even
+    rec = lambda nl, cl=0: (25 + nl + cl + 1) // 2 * 2
+    target = rng.choice([488, 488, 486, 484])
+    names, total, i = [], 0, 0
+    while True:
+        nl = rng.choice([4, 6, 7, 8])
+        if total + rec(nl) > target - 28: break
+        names.append((b"%02d" % i + b"abcdefgh")[:nl]); total += rec(nl); i += 1
+    last = target - total                     # the last record has to be exactly this long
+    nl = last - 25
+    if 1 <= nl <= 31:
+        for k in (nl, nl - 1):
+            if 1 <= k <= 30 and rec(k) == last: names.append((b"%02d" % i + b"q" * 30)[:k]); break
+    sub = rng.random() < 0.5
+    if sub: ops += [f"mkdir 0 0 {hx(b'S')}", f"chdir 0 0 {hx(b'S')}"]
+    for j, nm in enumerate(names):
+        if j % 2: ops.append(f"mkdir 0 0 {hx(nm)}")
+        else: ops += [f"open 1 0 0 {hx(nm)} 2", "close 1"]
+    ops += ["usedirc 1", "list 0 0 0", "usedirc 0", "list 0 0 0"]
+    if sub: ops.append("toroot 0 0")
+    ops += ["usedirc 1", "list 0 0 1", "usedirc 0", "list 0 0 1", "free 0 0"] + epilogue()
+    ops += ["opendev 0 1", "mount 0 0 1", "usedirc 1", "list 0 0 1", "usedirc 0", "list 0 0 1"] + epilogue()
+    return ops
+
 def gen_pagecross(rng, nops=None):
     """a hardfile with 3-4 bitmap pages: files large enough to run across the boundaries between bitmap pages (blocks
     2+4064k), deleted and re-created, so that blocks on both sides of every page boundary are allocated and released"""
@@ -457,14 +566,22 @@ def gen_dircfull(rng):
     sub_n = rng.choice([0, 17, 17, 34])
     if sub_n:
         ops += [f"mkdir 0 0 {hx(b'sub')}", f"chdir 0 0 {hx(b'sub')}"]
-        for i in range(sub_n): ops += [f"open 1 0 0 {hx(b'a%02d' % i)} 2", "close 1"]
+        hist_c = rng.random() < 0.6
+        for i in range(sub_n):
+            ops += [f"open 1 0 0 {hx(b'a%02d' % i)} 2", "close 1"]
+            # comment history: long, then short (the stale tail of the long one stays in the block); the cache fills up AFTER it
+            if i == 5 and hist_c: ops += [f"comment 0 0 {hx(b'a05')} {hx(b'L' * 76)}", f"comment 0 0 {hx(b'a05')} {hx(b'ok')}"]
         ops += ["parent 0 0", f"open 1 0 0 {hx(b'mv')} 2", "write 1 20 8", "close 1"]
     ops += [f"open 2 0 0 {hx(b'filler')} 2", f"write 2 {1800 * dbs} 5", "close 2", "free 0 0"]
     if sub_n:
         # every one of these needs a block that is not there: each must fail leaving everything as it was
         ops += [f"rename 0 0 {hx(b'mv')} {hx(b'mv')} / {hx(b'sub')}", "free 0 0", "list 0 0 1",
                 f"rename 0 0 {hx(b'mv')} {hx(b'm')} / {hx(b'sub')}", f"mkdir 0 0 {hx(b'nodir')}", f"open 1 0 0 {hx(b'nofile')} 2", "close 1",
-                f"comment 0 0 {hx(b'mv')} {hx(b'c' * 60)}", "free 0 0", "list 0 0 1"]
+                f"comment 0 0 {hx(b'mv')} {hx(b'c' * 60)}", "free 0 0", "list 0 0 1",
+                # the same inside the full sub-directory: a record that has to grow where the cache cannot
+                f"chdir 0 0 {hx(b'sub')}", f"rename 0 0 {hx(b'a03')} {hx(b'a03_with_a_much_longer_name_xx')}", "list 0 0 0",
+                f"comment 0 0 {hx(b'a05')} {hx(b'm' * 60)}", "list 0 0 0", f"comment 0 0 {hx(b'a07')} {hx(b'n' * 30)}",
+                "usedirc 1", "list 0 0 0", "usedirc 0", "list 0 0 0", "parent 0 0", "free 0 0"]
     kill = names[-rng.randint(4, len(names) - 2):]
     rng.shuffle(kill) if rng.random() < 0.3 else kill.reverse()
     for nm in kill:
@@ -628,11 +745,22 @@ def gen_ro(rng):
     dostype = rng.randrange(8)
     kind = rng.choice(["dd", "dd", "hd", 4001])
     ops = prologue(dostype, kind=kind, clock=(2013, 3, 4, 5, 6, 7))
+    # a quarter of the runs use the in-memory NATIVE device (ADFlib's native-driver interface) instead of a dump file
+    native = rng.random() < 0.25
+    if native: ops[0] += " native"
     ops += [f"mkdir 0 0 {hx(b'dir')}", f"open 1 0 0 {hx(b'file')} 2", "write 1 3000 4", "close 1",
             f"open 1 0 0 {hx(b'big')} 2", f"write 1 {rng.choice([100, 40000])} 5", "close 1", f"comment 0 0 {hx(b'file')} {hx(b'note')}"]
     ops += epilogue()
     devro, volro = rng.choice([(1, 0), (1, 1), (0, 1)])
-    ops += ["imghash 0", f"opendev 0 {devro}", f"mount 0 0 {volro}"]
+    wp = native and rng.random() < 0.6
+    if wp:
+        # the device's write-protect tab is set: its driver forces the device read-only although the caller asks for
+        # read-write; the library has to honour that
+        ops.append("wprotect 0 1"); devro_asked = 0
+        ops += ["imghash 0", f"opendev 0 {devro_asked}", f"mount 0 0 {rng.choice([0, 0, 1])}"]
+        devro = 1
+    else:
+        ops += ["imghash 0", f"opendev 0 {devro}", f"mount 0 0 {volro}"]
     if dostype & 4 and rng.random() < 0.5: ops.append("usedirc 1")
     attempts = [f"mkdir 0 0 {hx(b'new')}", f"remove 0 0 {hx(b'file')}", f"remove 0 0 {hx(b'dir')}",
                 f"rename 0 0 {hx(b'file')} {hx(b'other')}", f"rename 0 0 {hx(b'file')} {hx(b'moved')} / {hx(b'dir')}",
